@@ -1,5 +1,7 @@
 import Model.Recv
+import Model.ServerStream
 import Drv.C17
+import Drv.C02
 namespace Drv.C03
 open Model.Recv Drv
 
@@ -47,5 +49,50 @@ def cmd (args : List String) : String :=
       (if tr.isEmpty then "-" else " ".intercalate (tr.map showEv)) ++ " | " ++ showRes r
     | _, _, _ => "bad-args"
   | _ => "bad-args"
+
+def showPkt : Pkt → String
+  | .data c r => s!"d:{c}:{r}"
+  | .totals c r => s!"t:{c}:{r}"
+  | .progress i => s!"p:{i}"
+  | .profile i => s!"f:{i}"
+  | .events c n => s!"e:{c}:{n}"
+  | .logs c n => s!"l:{c}:{n}"
+  | .tableColumns => "tc"
+  | .exception codes => "x:" ++ ",".intercalate (codes.map toString)
+  | .endOfStream => "eos"
+  | .unexpected => "u"
+
+open Model Model.ServerStream in
+/-- parse the whole stream packet by packet (uncompressed connection) -/
+partial def parseAll (s : Send.Conn) (cfg : Col.Cfg) (sch : Schemas) (bs : Bytes) (acc : List String) : List String × String :=
+  if bs.isEmpty then (acc, "end")
+  else
+    match decPkt s cfg sch bs with
+    | .ok (p, rest) =>
+      let a := absR p
+      let acc := acc ++ [showPkt a]
+      match a with
+      | .endOfStream => (acc, "rest=" ++ toString rest.length)
+      | .exception _ => (acc, "rest=" ++ toString rest.length)
+      | .unexpected => (acc, "rest=" ++ toString rest.length)
+      | _ => parseAll s cfg sch rest acc
+    | .err e => (acc, "err:" ++ errStr e)
+    | .panic => (acc, "panic")
+    | .oom => (acc, "oom")
+
+open Model Model.ServerStream in
+/-- `c03.parse <rev> <hex> (<result schema>) (<events schema>) (<logs schema>)` → `<pkts ;-separated> | <end>` -/
+def cmdParse (rev hex : String) (rest : String) : String :=
+  match rev.toNat?, fromHex hex, Sexp.parse ("(" ++ rest ++ ")") with
+  | some v, some bs, some (.list [r, e, l]) =>
+    match C02.parseSchema r, C02.parseSchema e, C02.parseSchema l with
+    | some r, some e, some l =>
+      let s : Send.Conn := { v := v, compressed := false, codec := ⟨fun _ => [], fun _ x => x, fun _ _ _ => none⟩, method := 0 }
+      let cfg : Col.Cfg := { strLim := some Col.goStrLimit, cap := none,
+                             compat := fun a b => !TypeStr.conflicts TypeStr.asciiExt a b }
+      let (toks, fin) := parseAll s cfg { result := r, events := e, logs := l } bs []
+      (if toks.isEmpty then "-" else ";".intercalate toks) ++ " | " ++ fin
+    | _, _, _ => "bad-args"
+  | _, _, _ => "bad-args"
 
 end Drv.C03
